@@ -1132,11 +1132,11 @@ fn aggregate_batches_morsel_parallel(
         return Ok(RecordBatch::new_empty(schema.clone()));
     }
 
-    let plan_schema =
-        crate::planner::PlanSchema::from_qualified_arrow(batches[0].schema().as_ref());
+    let input_schema = batches[0].schema();
+    let plan_schema = crate::planner::PlanSchema::from_qualified_arrow(input_schema.as_ref());
     let input_types: Vec<DataType> = aggregates
         .iter()
-        .map(|a| a.input.data_type(&plan_schema).unwrap_or(DataType::Float64))
+        .map(|a| morsel_agg::agg_input_type(&a.input, &plan_schema, &input_schema))
         .collect();
     let agg_funcs: Vec<AggregateFunction> = aggregates.iter().map(|a| a.func).collect();
     let agg_inputs: Vec<Expr> = aggregates.iter().map(|a| a.input.clone()).collect();
